@@ -173,6 +173,7 @@ Definition run := run_gen true.
 (* first-order encoding of steps written by the Go harness; interval function = iv while c < lim, else 0 *)
 Inductive cstep :=
 | CNew (id iv lim : N)
+| CNewL (id : N) (l : list N) (tail : N)   (* interval function = nth c l tail *)
 | CStop (id : N)
 | CTick (d : N)
 | CCollect (id : N)
@@ -185,6 +186,7 @@ Definition mk_ivf (iv lim : N) : N -> N := fun c => if c <? lim then iv else 0.
 Definition decode (c : cstep) : step :=
   match c with
   | CNew id iv lim => SNew id (mk_ivf iv lim)
+  | CNewL id l tail => SNew id (fun c => nth (N.to_nat c) l tail)
   | CStop id => SStop id
   | CTick d => STick d
   | CCollect id => SCollect id
